@@ -93,7 +93,9 @@ struct thread {
     int matched_at_connect4;      /* reference: (dest,TCP) was in the policy when connect4 ran */
     int straddled;                /* the policy changed between the two hooks of the in-flight connect */
     uint16_t cur_sport;           /* helper-granularity search: source port of the in-flight tcp_connect */
+    int bound;                    /* the caller bound its socket to a local address (10.0.0.4) before connecting */
 };
+static struct bpf_sock vt_bound_sock;
 struct world {
     struct vt_map maps[4];
     struct thread th[MAXT]; int nth;
@@ -224,6 +226,7 @@ static int step_thread(struct world *w, int t, int abort_now) {
     if (th->pc % 2 == 0) {
         memset(&th->ctx, 0, sizeof th->ctx);
         th->ctx.user_family = 2; th->ctx.user_ip4 = c->ip; th->ctx.user_port = htons(c->port); th->ctx.family = 2; th->ctx.type = c->proto == 6 ? 1 : 2; th->ctx.protocol = c->proto;
+        if (th->bound) { vt_bound_sock.family = 2; vt_bound_sock.src_ip4 = inet_addr("10.0.0.4"); vt_bound_sock.src_port = 0; th->ctx.sk = &vt_bound_sock; th->ctx.msg_src_ip4 = inet_addr("10.0.0.4"); }
         th->matched_at_connect4 = 0; th->straddled = 0;
         for (int e = 0; e < 3; e++) if ((w->policy_bits & (1u << e)) && c->ip == EP_IP[e] && c->port == EP_PORT[e] && c->proto == 6) th->matched_at_connect4 = 1;
         connect4(&th->ctx);
@@ -504,6 +507,23 @@ int main(int argc, char **argv) {
         step_thread(&w, 0, 0); step_thread(&w, 0, 0);
     }
     printf("STAT full_audit_map_connects %ld\n", n_full_map);
+    /* callers that bound their socket to a local address before connecting (source-address pinning): diverted to the
+       proxy listener like any other caller */
+    long n_bound = 0;
+    for (int pi = 0; pi < npol; pi++) for (int a = 0; a < nids; a++) for (int d = 0; d < nd; d++) {
+        struct world w; memset(&w, 0, sizeof w);
+        memset(vt_maps, 0, sizeof vt_maps);
+        vt_update(&skip_process_map, 4, 4, 10, 1, skip_key, skip_val);
+        set_policy(policies[pi]);
+        (void)vt_lookup(&audit_map, 8, 20, 200, 9, "\0\0\0\0\0\0\0\0"); (void)vt_lookup(&local_map, 8, 24, 200, 9, "\0\0\0\0\0\0\0\0");
+        save_world(&w);
+        w.nth = 1; w.policy_bits = policies[pi]; w.next_sport = 40001;
+        w.th[0].id = ids[a]; w.th[0].is_agent = ids[a].tgid == agent_pid; w.th[0].nconn = 1; w.th[0].c[0] = dests[d]; w.th[0].bound = 1;
+        if (w.tlen < 90) { memcpy(w.trace, "bound:", 6); w.tlen = 6; }
+        n_configs++; n_bound++;
+        step_thread(&w, 0, 0); if (w.th[0].pc % 2 == 1) step_thread(&w, 0, 0);
+    }
+    printf("STAT bound_socket_connects %ld\n", n_bound);
     printf("STAT connects_not_judged_policy_changed_between_hooks %ld\n", n_unspecified);
     printf("STAT configurations %ld\nSTAT states %ld\nSTAT transitions %ld\nSTAT connects_checked %ld\nSTAT diverts_expected %ld\nSTAT helper_calls %ld\nSTAT violations %ld\n", n_configs, n_states, n_trans, n_connects_checked, n_divert_expected, vt_helper_calls, n_viol);
     printf("STAT fine_configurations %ld\nSTAT fine_executions %ld\nSTAT fine_steps %ld\nSTAT fine_max_preemptions %ld\n", n_fine_configs, n_fine_exec, n_fine_steps, n_fine_maxpre);
